@@ -1,7 +1,7 @@
 import ScrapliModel.Telnet
 open Scrapli Scrapli.Telnet
 
-/-- line: `sync|async <chunks>` -> `<data hex> <writes list>` -/
+/-- line: `sync|async <chunks>` -> `<data hex> <writes list> R=<results of the successive read() calls>` -/
 def handleLine (line : String) : String :=
   match line.trimAscii.toString.splitOn " " with
   | [kind, chunks] =>
@@ -9,7 +9,9 @@ def handleLine (line : String) : String :=
     | none => "bad-op"
     | some tape =>
       let (d, w) := if kind == "sync" then runSync tape else runAsync tape
-      s!"{Hex.encode d} {Hex.encodeList w}"
+      let rs := if kind == "sync" then reads Scrapli.Gen.Telnet.syncCounts Scrapli.Gen.Telnet.syncLimit {} tape
+                else reads Scrapli.Gen.Telnet.asyncCounts Scrapli.Gen.Telnet.asyncLimit {} tape
+      s!"{Hex.encode d} {Hex.encodeList w} R={Hex.encodeList rs}"
   | _ => "bad-op"
 
 partial def loop (h : IO.FS.Stream) : IO Unit := do
